@@ -215,6 +215,19 @@ func (s *EtcdStore) FetchConsumerOffset(ctx context.Context, group, topic string
 	return rec.Offset, rec.Metadata, nil
 }
 
+// HasConsumerOffset reports whether an offset was ever committed for the
+// group/topic/partition (FetchConsumerOffset answers 0 for a missing commit).
+func (s *EtcdStore) HasConsumerOffset(ctx context.Context, group, topic string, partition int32) (bool, error) {
+	ctx, cancel := context.WithTimeout(ctx, 3*time.Second)
+	defer cancel()
+	resp, err := s.client.Get(ctx, consumerOffsetKey(group, topic, partition), clientv3.WithCountOnly())
+	s.recordEtcdResult(err)
+	if err != nil {
+		return false, err
+	}
+	return resp.Count > 0, nil
+}
+
 // ListConsumerOffsets returns all committed offsets stored in etcd.
 func (s *EtcdStore) ListConsumerOffsets(ctx context.Context) ([]ConsumerOffset, error) {
 	ctx, cancel := context.WithTimeout(ctx, 3*time.Second)
